@@ -389,8 +389,13 @@ func round(ctx *context, args []Datum) (retNum Datum) {
 	num0 := args[0].Number("round()")
 
 	// Closest integer, ties towards positive infinity.  NaN and the
-	// infinities pass through Floor() unchanged.
-	rounded := math.Floor(num0 + 0.5)
+	// infinities pass through Floor() unchanged.  (Floor(x + 0.5) is wrong
+	// where x + 0.5 is not representable: 0.49999999999999994, odd
+	// integers above 2^52.)
+	rounded := math.Floor(num0)
+	if num0-rounded >= 0.5 {
+		rounded++
+	}
 	if rounded == 0 && (num0 < 0 || math.Signbit(num0)) {
 		// Negative zero and numbers in [-0.5, 0) round to negative zero.
 		rounded = math.Copysign(0, -1)
